@@ -22,3 +22,48 @@ for trial in range(2000):
     d = {}; p = list(b); d[3] = p; assert d[3] == b and d[3] is p
     c = list(d[3]); assert c == b and c is not d[3]       # list(x) / x.copy(): new object, same entries
 print("itertools.chain(*L), list.reverse, list.extend, dict-of-lists: model facts hold on 2000 random inputs")
+
+# ---- third session: np.nonzero of a concrete mask (fixed-topology variants), the height witness `ht8` of Tree.Node.branch
+import os, sys
+sys.path.insert(0, os.path.dirname(os.path.dirname(os.path.abspath(__file__))))
+import numpy as np
+from pyvc import ext_C08
+from pyvc.values import NArr
+
+
+class _Eng:  # the model only records its name
+    prop = "C08"
+
+    def __init__(self):
+        self.assumptions = set()
+
+    def truth(self, x):
+        return bool(x)
+
+
+for trial in range(2000):
+    m = [random.random() < 0.4 for _ in range(random.randint(0, 9))]
+    (got,) = ext_C08._np_nonzero(_Eng(), [NArr((len(m),), list(m), "bool")], {})
+    assert list(got.items) == [int(i) for i in np.nonzero(np.array(m, dtype=bool))[0]], (m, got.items)
+    a = [random.randint(-1, 8) for _ in range(random.randint(0, 7))]
+    a = list(dict.fromkeys(a)) if trial % 2 else a  # distinct or not: numpy itself computes the concrete case
+    b = [random.randint(-1, 8) for _ in range(random.randint(0, 7))]
+    got = ext_C08._np_setdiff1d(_Eng(), [NArr((len(a),), a, "int"), NArr((len(b),), b, "int")], dict(assume_unique=True))
+    assert list(got.items) == [int(i) for i in np.setdiff1d(np.array(a, dtype=np.int64), np.array(b, dtype=np.int64), assume_unique=True)]
+    # every finite tree (parents in any order) has a height function: ht(parent) > ht(child) >= 0  (precondition of the Node.branch proof)
+    n = random.randint(1, 12)
+    pid = [-1] + [random.randrange(i) for i in range(1, n)]
+    perm = [0] + random.sample(range(1, n), n - 1)
+    q = [0] * n
+    for i in range(n):
+        q[perm[i]] = -1 if pid[i] == -1 else perm[pid[i]]
+    kids = {i: [j for j in range(n) if q[j] == i] for i in range(n)}
+    ht = {}
+
+    def height(i):
+        if i not in ht:
+            ht[i] = 1 + max((height(j) for j in kids[i]), default=-1)
+        return ht[i]
+
+    assert all(height(i) >= 0 for i in range(n)) and all(height(q[i]) > height(i) for i in range(n) if q[i] != -1)
+print("np.nonzero / np.setdiff1d on concrete arrays agree with numpy; a height witness exists: 2000 random inputs")
